@@ -2,7 +2,7 @@
 (* Trace validation for C20: {"in": {opts, init, lines, final_nl}, "obs": {argvs, exit}} *)
 EXTENDS XargsReplace, TraceLib
 
-InDomain(in) == InDomainReplace(in)
+InDomain(in, obs) == InDomainReplace(in)
 
 Expected(in) == RefReplace(in)
 
